@@ -1,5 +1,194 @@
-"""Obligations that are not generated from a function contract (lemmas, syntactic gates, twin normal forms)."""
+"""Obligations that are not generated from one function's contract: the once-only gate rule for concurrent
+terminations (C04 asyncio clause, C20 threads), stability lemmas over the manager contracts, twin normal forms (C14)."""
+import ast
+import time
+import z3
+from pyvc import smt, source
+from pyvc.smt import V, NONE
+from pyvc.model import State
+
+
+def ob(name, status, kind, t0, why=None, backend='syntactic', function=None, model=None):
+    d = {'name': name, 'status': status, 'kind': kind, 'backend': backend, 'time_s': round(time.time() - t0, 4), 'paths': 1, 'tags': [],
+         'function': function or name.split('/')[0]}
+    if why:
+        d['why'] = why if isinstance(why, list) else [why]
+    if model:
+        d['model'] = model
+    return d
+
+
+# --------------------------------------------------------------------------- gate rule, part g1 (syntactic)
+def _calls_in_order(fn):
+    out = []
+    for n in ast.walk(fn):
+        if isinstance(n, ast.Call) and isinstance(n.func, ast.Attribute):
+            out.append((n.lineno, n.col_offset, n.func.attr, n))
+    return sorted(out, key=lambda t: (t[0], t[1]))
+
+
+def _resolve_manager_method(name, mod='async_manager', cls='AsyncManager'):
+    found = source.find_method(mod, cls, name)
+    return found[2] if found else None
+
+
+def nosuspend(fn, depth=0, seen=None):
+    """A coroutine function that, transitively, awaits nothing that can suspend: every `await` in it is on another
+    nosuspend coroutine method of the manager (resolved statically), and it has no async for / async with."""
+    seen = seen or set()
+    if fn is None or depth > 4:
+        return False, 'callee not found'
+    for n in ast.walk(fn):
+        if isinstance(n, (ast.AsyncFor, ast.AsyncWith)):
+            return False, 'async for/with in %s' % fn.name
+        if isinstance(n, ast.Await):
+            v = n.value
+            if isinstance(v, ast.Call) and isinstance(v.func, ast.Attribute):
+                callee = None
+                f = v.func
+                if isinstance(f.value, ast.Call) and isinstance(f.value.func, ast.Name) and f.value.func.id == 'super':
+                    callee = _resolve_manager_method(f.attr, 'manager', 'Manager') or _resolve_manager_method(f.attr, 'base_manager', 'BaseManager')
+                    r = source.find_method('async_manager', 'AsyncManager', f.attr)
+                    callee = r[2] if r else callee
+                elif isinstance(f.value, ast.Name) and f.value.id == 'self':
+                    callee = _resolve_manager_method(f.attr)
+                if callee is not None and isinstance(callee, ast.AsyncFunctionDef):
+                    ok, why = nosuspend(callee, depth + 1, seen)
+                    if ok:
+                        continue
+                    return False, why
+                if callee is not None and isinstance(callee, ast.FunctionDef):
+                    return False, 'await of the result of a plain function %s (may be any awaitable)' % callee.name
+            return False, 'await of %s in %s may suspend' % (ast.unparse(v)[:60], fn.name)
+    return True, ''
+
+
+def gate_g1(mod, cls, fname, tests, mark, asyncio_mode):
+    """(g1) the test (is_connected / can_disconnect) and the mark (pre_disconnect) lie in one atomic section."""
+    t0 = time.time()
+    name = '%s.%s.%s/gate.g1.check-and-mark-atomic' % (mod, cls, fname)
+    found = source.find_method(mod, cls, fname)
+    if not found or found[0] != mod:
+        return ob(name, 'undecided', 'gate', t0, 'function not found')
+    fn = found[2]
+    calls = _calls_in_order(fn)
+    tpos = [c for c in calls if c[2] in tests]
+    mpos = [c for c in calls if c[2] == mark]
+    if not tpos or not mpos:
+        return ob(name, 'undecided', 'gate', t0, 'test or mark call not found in %s' % fname)
+    first_test = tpos[0]
+    m = mpos[0]
+    if (m[0], m[1]) < (first_test[0], first_test[1]):
+        return ob(name, 'refuted', 'gate', t0, 'the mark precedes the test')
+    if not asyncio_mode:
+        # threads: every call into the client manager is one atomic action; test and mark are two of them and no lock
+        # brackets them -> another thread can run between them
+        has_lock = any(isinstance(n, ast.With) for n in ast.walk(fn))
+        if has_lock:
+            return ob(name, 'undecided', 'gate', t0, 'a with-block (lock?) is present: the atomic section cannot be judged syntactically')
+        return ob(name, 'refuted', 'gate', t0, ['threads: %s() and %s() are two separate manager calls with nothing making them one atomic section; '
+                                               'schedule: both threads pass the test before either marks' % (first_test[2], mark)])
+    # asyncio: every await positioned between the (first) test and the mark must be nosuspend
+    between = []
+    for n in ast.walk(fn):
+        if isinstance(n, ast.Await):
+            # an await that contains the test call itself is included: it must not suspend after the test was evaluated
+            contains_test = any(c[3] is x for c in tpos for x in ast.walk(n))
+            pos = (n.lineno, n.col_offset)
+            if contains_test or ((first_test[0], first_test[1]) < pos < (m[0], m[1])):
+                between.append(n)
+    for a in between:
+        v = a.value
+        ok, why = False, 'await of %s may suspend between the test and the mark' % ast.unparse(v)[:80]
+        if isinstance(v, ast.Call) and isinstance(v.func, ast.Attribute) and isinstance(v.func.value, ast.Attribute) \
+                and v.func.value.attr == 'manager':
+            callee = _resolve_manager_method(v.func.attr)
+            if isinstance(callee, ast.AsyncFunctionDef):
+                ok, why2 = nosuspend(callee)
+                why = why2 or why
+        if not ok:
+            return ob(name, 'refuted', 'gate', t0, [why, 'schedule: a second terminating cause runs while this one is suspended between its test and its mark'])
+    return ob(name, 'proved', 'gate', t0)
+
+
+# --------------------------------------------------------------------------- gate rule, part g3 (VCs over the contracts)
+def stability_lemmas(prop, seed):
+    """(g3) once a session id is not connected (marked pending, or gone) no operation of another party makes it connected
+    again: a Hoare triple per manager mutator, discharged from its verified contract."""
+    from pyvc.run import registry
+    from pyvc.contract import CallCtx, make_param
+    from pyvc.engine import Engine, Ctx, Frame
+    from .ext import make_externals
+    from .views import connected, inv_m, issued_ok
+    from . import worlds
+    reg = registry()
+    out = []
+    targets = ['base_manager.BaseManager.basic_enter_room', 'base_manager.BaseManager.basic_leave_room', 'base_manager.BaseManager.basic_close_room',
+               'base_manager.BaseManager.basic_disconnect', 'base_manager.BaseManager.connect', 'base_manager.BaseManager.pre_disconnect']
+    for tgt in targets:
+        k = reg.by_target.get(tgt)
+        t0 = time.time()
+        name = '%s/gate.g3.not-connected-is-stable' % tgt
+        if k is None:
+            out.append(ob(name, 'undecided', 'gate', t0, 'no contract'))
+            continue
+        eng = Engine(k.schema, reg, make_externals(k.schema))
+        ctx = Ctx()
+        ctx.st = State.fresh(k.schema, 'pre')
+        fid = ctx.new_id()
+        ctx.frames[fid] = Frame({}, None, k.self_obj, None, 'lemma', None)
+        ctx.fid = fid
+        vals = {p: make_param(eng, ctx, p, kind) for p, kind in k.params.items()}
+        pre = ctx.st
+        post = pre.havoc(k.modifies, 'post')
+        ns, sid = z3.Consts('lm_ns lm_sid', V)
+        statuses = []
+        for case in k.cases:
+            if case.kind != 'return' or (case.post is None and case.update is None):
+                continue
+            cc = CallCtx(eng, ctx, pre, post, vals, self_obj=k.self_obj)
+            hyps = list(ctx.pc) + list((k.requires(cc) or {}).values())
+            hyps += list(inv_m(pre).values()) + list(issued_ok(pre).values())
+            hyps.append(case.when(cc) if case.when else z3.BoolVal(True))
+            if case.result == 'V' or case.result == 'I':
+                cc.result = __import__('pyvc.vals', fromlist=['S']).S(smt.fresh('res', V if case.result == 'V' else z3.IntSort()))
+            if case.update is not None:
+                cx = ctx.fork()
+                cx.st = pre
+                ce = CallCtx(eng, cx, pre, pre, vals, self_obj=k.self_obj)
+                case.update(ce)
+                thepost = cx.st
+                hyps += cx.pc[len(ctx.pc):]
+            else:
+                thepost = post
+                hyps += list(case.post(cc).values())
+            # the session id in question was issued before; it is not the one this operation is about to register
+            hyps.append(pre.get('g', 'issued').c['.'][sid])
+            hyps.append(z3.Not(connected(pre, ns, sid)))
+            if tgt.endswith('basic_enter_room'):
+                # connect-mode entry registers a fresh session id (connect's contract); application-mode keeps transports
+                hyps.append(z3.Implies(vals['eio_sid'].t != NONE, z3.Not(pre.get('g', 'issued').c['.'][vals['sid'].t])))
+            r = smt.prove(hyps, z3.Not(connected(thepost, ns, sid)), timeout_ms=10000, seed=seed)
+            statuses.append(r['status'])
+        st = 'proved' if statuses and all(s == 'proved' for s in statuses) else ('refuted' if 'refuted' in statuses else 'undecided')
+        out.append(ob(name, st, 'gate', t0, backend='z3'))
+    return out
 
 
 def run(prop, tier, seed):
-    return []
+    out = []
+    if prop == 'C04':
+        out.append(gate_g1('async_server', 'AsyncServer', 'disconnect', ('is_connected', 'can_disconnect'), 'pre_disconnect', True))
+        out.append(gate_g1('async_server', 'AsyncServer', '_handle_disconnect', ('is_connected',), 'pre_disconnect', True))
+        out += stability_lemmas(prop, seed)
+    if prop == 'C20':
+        g1 = [gate_g1('server', 'Server', 'disconnect', ('is_connected', 'can_disconnect'), 'pre_disconnect', False),
+              gate_g1('server', 'Server', '_handle_disconnect', ('is_connected',), 'pre_disconnect', False)]
+        lem = stability_lemmas(prop, seed)
+        out += g1 + lem
+        # what still has to hold while (g1) is a recorded finding: the rest of the gate rule, so that a different race is still reported
+        for o in g1:
+            t0 = time.time()
+            rest_ok = all(l['status'] == 'proved' for l in lem)
+            out.append(ob(o['name'] + '#residual', 'proved' if rest_ok else 'undecided', 'gate', t0, backend='z3'))
+    return out
